@@ -426,6 +426,210 @@ def run(ctx):
                 ctx.violation("type-cpp-vs-python:expr", "expression %s: C++ declares %s, Python declares %s" % (nm, d[0], d[1]), {"case_dir": root})
     worker.close()
     ctx.sample({"expression_catalogue": [s for _, s, _ in EXPRS][:10]})
+    run_random_expressions(ctx, home, quick)
+
+
+# ----------------------------------------------------------------------------- random well-typed expressions
+
+class _Rx:
+    """Random expression trees over a record with int32 / float64 fields, a vector and a nested record. Every tree carries its yardl source
+    (minimal parentheses according to yardl's own precedence table: as > ** > * / > + -, ** right-associative), an interval bound (so that
+    int32 results never overflow and float values stay tame) and an exact reference evaluator."""
+    PREC = {"+": 1, "-": 1, "*": 2, "/": 2, "**": 3, "as": 4}
+
+    def __init__(self, r):
+        self.r = r
+
+    def leaf(self, want):
+        r = self.r
+        if want == "int":
+            k = r.randrange(8)
+            if k < 3:
+                n = r.choice(["ia", "ib", "ic"])
+                return dict(src=n, prec=9, t="int", lo=-1000, hi=1000, ev=lambda v, n=n: v[n])
+            if k == 3:
+                i = r.randrange(2)
+                return dict(src="vec[%d]" % i, prec=9, t="int", lo=-100, hi=100, ev=lambda v, i=i: v["vec"][i])
+            if k == 4:
+                f = r.choice(["p", "q"])
+                return dict(src="inner.%s" % f, prec=9, t="int", lo=-100, hi=100, ev=lambda v, f=f: v["inner"][0 if f == "p" else 1])
+            if k == 5:
+                return dict(src="size(vec)", prec=9, t="int", lo=2, hi=6, ev=lambda v: len(v["vec"]), size=True)
+            c = r.randint(0, 9)
+            return dict(src=r.choice(["%d", "%d", "0x%x"]) % c, prec=9, t="int", lo=c, hi=c, ev=lambda v, c=c: c, lit=True)
+        k = r.randrange(5)
+        if k < 3:
+            n = r.choice(["da", "db", "dc"])
+            return dict(src=n, prec=9, t="float", lo=-50.0, hi=50.0, ev=lambda v, n=n: v[n], nz=(n != "da"))
+        c = r.choice([0.5, 1.5, 2.0, 0.25, 3.0, 10.0])
+        return dict(src=repr(c), prec=9, t="float", lo=c, hi=c, ev=lambda v, c=c: c, nz=True, lit=True)
+
+    def paren(self, e, parent_prec, right_side, right_assoc):
+        need = e["prec"] < parent_prec or (e["prec"] == parent_prec and (right_side != right_assoc))
+        if not need and self.r.random() < 0.1:
+            need = True            # redundant parentheses are legal
+        return "(%s)" % e["src"] if need else e["src"]
+
+    def gen(self, depth, want=None):
+        r = self.r
+        want = want or r.choice(["int", "float"])
+        if depth <= 0 or r.random() < 0.2:
+            return self.leaf(want)
+        k = r.random()
+        if k < 0.10:       # cast
+            if want == "float":
+                a = self.gen(depth - 1, "int")
+                return dict(src="%s as float64" % self.paren(a, 4, False, False), prec=4, t="float", lo=float(a["lo"]), hi=float(a["hi"]), ev=lambda v, a=a: float(a["ev"](v)))
+            a = self.gen(depth - 1, "float")
+            if not (-2e9 < a["lo"] and a["hi"] < 2e9):
+                return self.leaf("int")
+            return dict(src="%s as int32" % self.paren(a, 4, False, False), prec=4, t="int", lo=int(a["lo"]) - 1, hi=int(a["hi"]) + 1, ev=lambda v, a=a: int(a["ev"](v)), trunc=True)
+        if k < 0.17:       # unary minus on an atom or a parenthesised expression
+            a = self.gen(depth - 1, want)
+            if a.get("size"):
+                return a           # size() is unsigned
+            return dict(src="(-%s)" % (a["src"] if a["prec"] == 9 and not a["src"].startswith("-") else "(%s)" % a["src"]), prec=9, t=want, lo=-a["hi"], hi=-a["lo"], ev=lambda v, a=a: -a["ev"](v))
+        if want == "float" and k < 0.27:     # power with a small literal exponent
+            a = self.gen(depth - 1, "float")
+            n = r.choice([2, 3])
+            m = max(abs(a["lo"]), abs(a["hi"]))
+            if m > 1e3:
+                return a
+            return dict(src="%s ** %d" % (self.paren(a, 3, False, True), n), prec=3, t="float", lo=-(m ** n), hi=m ** n, ev=lambda v, a=a, n=n: a["ev"](v) ** n, pow=True)
+        op = r.choice(["+", "-", "*"] + (["/"] if want == "float" else []))
+        if want == "int":
+            a, b = self.gen(depth - 1, "int"), self.gen(depth - 1, "int")
+        else:
+            ta, tb = r.choice([("float", "float"), ("float", "int"), ("int", "float")])
+            a, b = self.gen(depth - 1, ta), self.gen(depth - 1, tb)
+        if a.get("size") or b.get("size"):
+            # mixing the unsigned size() with signed operands changes the result type: keep it out of arithmetic
+            return a if not a.get("size") else self.leaf(want)
+        if op == "/":
+            # a divisor that is provably non-zero: a non-zero field / literal
+            b = self.leaf("float")
+            while not b.get("nz"):
+                b = self.leaf("float")
+            if a["t"] == "int":
+                a = self.leaf("float")
+        pp = self.PREC[op]
+        src = "%s %s %s" % (self.paren(a, pp, False, False), op, self.paren(b, pp, True, False))
+        al, ah, bl, bh = a["lo"], a["hi"], b["lo"], b["hi"]
+        if op == "+":
+            lo, hi = al + bl, ah + bh
+        elif op == "-":
+            lo, hi = al - bh, ah - bl
+        elif op == "*":
+            c = [al * bl, al * bh, ah * bl, ah * bh]
+            lo, hi = min(c), max(c)
+        else:
+            m = max(abs(al), abs(ah)) / 0.25
+            lo, hi = -m, m
+        if want == "int" and not (-2**31 < lo and hi < 2**31):
+            return a
+        if want == "float" and max(abs(lo), abs(hi)) > 1e12:
+            return a
+        f = {"+": lambda x, y: x + y, "-": lambda x, y: x - y, "*": lambda x, y: x * y, "/": lambda x, y: x / y}[op]
+        return dict(src=src, prec=pp, t=want, lo=lo, hi=hi, ev=lambda v, a=a, b=b, f=f: f(a["ev"](v), b["ev"](v)), nz=False)
+
+
+def run_random_expressions(ctx, home, quick):
+    """cross-language and reference agreement on random well-typed expressions (the emitters must reproduce precedence, associativity,
+    promotion and casts for any tree, not only for the catalogue)"""
+    n_models = 1 if quick else 12
+    per_model = 60 if quick else 170
+    for mi in range(n_models):
+        r = rng("C19rx", mi)
+        g = _Rx(r)
+        exprs, seen = [], set()
+        while len(exprs) < per_model:
+            e = g.gen(r.choice([1, 2, 3, 4]))
+            if e["prec"] == 9 and e.get("lit"):
+                continue
+            if e["src"] in seen:
+                continue
+            seen.add(e["src"])
+            exprs.append(e)
+        model = ("RInner: !record\n  fields:\n    p: int32\n    q: int32\nRx: !record\n  fields:\n    ia: int32\n    ib: int32\n    ic: int32\n    da: float64\n    db: float64\n    dc: float64\n"
+                 "    vec: int32*\n    inner: RInner\n  computedFields:\n")
+        for i, e in enumerate(exprs):
+            model += "    r%d: '%s'\n" % (i, e["src"].replace("'", "''"))
+        model += "PRx: !protocol\n  sequence:\n    items: !stream\n      items: Rx\n"
+        root = os.path.join(ctx.workdir, "random%d" % mi)
+        pkgdir = write_pkg(root, model)
+        p = cli.run_cli("generate", pkgdir, home)
+        ctx.ev()
+        if p.rc != 0:
+            ctx.violation("generate-failed:random", "well-typed random expressions rejected: %s" % cli.clean(p.stderr)[:500], {"case_dir": root})
+            continue
+        decl, pypkg = declared_types(root)
+        info = cxx.GenInfo(os.path.join(root, "out/cpp"))
+        cpp_h = open(os.path.join(root, "out/cpp/types.h")).read()
+        m = re.search(r"^struct Rx \{(.*?)^\};", cpp_h, re.M | re.S)
+        methods = [f.group(1) for f in re.finditer(r"^  [\w:<>, ]+?(?: const&)? (\w+)\(\) const \{", m.group(1), re.M)]
+        try:
+            exe = cxx.build(os.path.join(root, "out/cpp"), "plain", driver_src=driver_src(info.ns, [("PRx", "Rx", methods, "Items")]), tag="c19r")
+        except cxx.CompileError as e:
+            ctx.violation("cpp-compile-failed:random", "generated computed-field code does not compile: %s" % str(e)[-600:], {"case_dir": root})
+            continue
+        hp = Pkg("Cf", [Rec("RInner", [("p", P("int32")), ("q", P("int32"))]),
+                        Rec("Rx", [("ia", P("int32")), ("ib", P("int32")), ("ic", P("int32")), ("da", P("float64")), ("db", P("float64")), ("dc", P("float64")),
+                                   ("vec", V(P("int32"))), ("inner", N("RInner"))]),
+                        Proto("PRx", [("items", S(N("Rx")))])])
+        codec = Codec(hp)
+        pysrc = open(os.path.join(root, "out/python", pypkg, "protocols.py")).read()
+        schema = re.search(r'class PRxWriterBase\(abc\.ABC\):.*?\n    schema = r"""(.*?)"""', pysrc, re.S).group(1)
+        worker = mut.PyWorker(os.path.join(root, "out/python"), pypkg, os.path.join(root, "pyio"))
+        if not worker.hello.get("ready"):
+            ctx.violation("python-import-failed:random", "generated python does not import: %s" % worker.hello.get("error"), {"case_dir": root})
+            continue
+        items, envs = [], []
+        for k in range(12 if quick else 40):
+            ia, ib, ic = [r.randint(-1000, 1000) for _ in range(3)]
+            da = f64(r.choice([r.uniform(-50, 50), float(r.randint(-9, 9)), 0.5, -2.25]))
+            db, dc = [f64(r.choice([r.uniform(0.25, 50), -r.uniform(0.25, 50), 2.0, -4.0])) for _ in range(2)]
+            vec = [r.randint(-100, 100) for _ in range(r.randint(2, 6))]
+            inner = [r.randint(-100, 100), r.randint(-100, 100)]
+            items.append([ia, ib, ic, da, db, dc, vec, inner])
+            envs.append(dict(ia=ia, ib=ib, ic=ic, da=da.value, db=db.value, dc=dc.value, vec=vec, inner=inner))
+        data = codec.encode_stream(hp.find("PRx"), schema, [items])
+        pr = common.run([exe, "PRx"], stdin=data)
+        ctx.ev()
+        rows_cpp = [json.loads(l) for l in pr.stdout.split("\n") if l.strip()] if pr.rc == 0 else None
+        ip, op = os.path.join(root, "pyio", "cin"), os.path.join(root, "pyio", "cout")
+        open(ip, "wb").write(data)
+        res = worker.cmd({"op": "computed", "proto": "PRx", "in_path": ip, "out_path": op})
+        ctx.ev()
+        rows_py = json.load(open(op)) if res.get("ok") else None
+        worker.close()
+        if rows_cpp is None or rows_py is None:
+            ctx.violation("driver-failed:random:%s" % ("cpp" if rows_cpp is None else "py"), "Rx: computed-field driver failed: %s %s" % (pr.stderr[-300:], res.get("error")), {"case_dir": root})
+            continue
+        pynames = [n.replace("_", "") for n in rows_py["names"]]
+        mcpp = [x.lower() for x in methods]
+        bad = False
+        for i, e in enumerate(exprs):
+            nm = "r%d" % i
+            for k, env in enumerate(envs):
+                want = e["ev"](env)
+                gc = rows_cpp[k][mcpp.index(nm)]
+                gp = rows_py["rows"][k][pynames.index(nm)]
+                ctx.count("random.judged")
+                for lang, got in (("cpp", gc), ("py", gp)):
+                    if e["t"] == "int":
+                        ok = isinstance(got, int) and not isinstance(got, bool) and got == want
+                    else:
+                        ok = isinstance(got, (int, float)) and abs(got - want) <= 1e-9 * max(1.0, abs(want))
+                    if not ok:
+                        bad = True
+                        ctx.violation("random-expr:%s:%s" % (lang, e["t"]), "expression `%s`: %s returns %r, expected %r (record #%d)" % (e["src"], lang, got, want, k),
+                                      {"case_dir": root, "env": repr(env)[:400]})
+                        break
+            ctx.case(("random", e["src"]))
+        if mi == 0:
+            ctx.sample({"random_expressions": [e["src"] for e in exprs[:8]]})
+        if not bad:
+            shutil.rmtree(root, ignore_errors=True)
 
 
 def replay(ctx, path):
